@@ -508,6 +508,14 @@ class CPrinter:
         s = strip_ns(e.f.name)
         if s in self.ghost_fns or s.split('::')[-1] in self.ghost_fns:
             return self.ghost(s.split('::')[-1], e, env)
+        if s in ('std::min', 'std::max', 'std::fmin', 'std::fmax') and len(e.args) == 1 and isinstance(e.args[0], InitList) and e.args[0].items:
+            # std::min({a, b, c}): fold into nested two-argument forms
+            items = [self.expr(x, env) for x in e.args[0].items]
+            self.fire('std::min/max-of-initializer-list')
+            acc = items[0]
+            for it_ in items[1:]:
+                acc = ('((%s < %s) ? %s : %s)' % (it_, acc, it_, acc)) if 'min' in s else ('((%s < %s) ? %s : %s)' % (acc, it_, it_, acc))
+            return acc
         args = [self._arg_expr(a, env, s, i, len(e.args)) for i, a in enumerate(e.args)]
         if s.startswith('std::numeric_limits') and e.f.targs and isinstance(e.f.targs[0], Type) and strip_ns(e.f.targs[0].name) == 'int':
             return {'min': '(-2147483647 - 1)', 'max': '2147483647', 'lowest': '(-2147483647 - 1)'}[s.split('::')[-1]]
